@@ -258,3 +258,20 @@ def checks(tier):
                       "positions within the first 40 calls, branch loose or packed",
                outside="3 actors; in-memory repositories (no file-system interleaving there)", time_budget=2400, tiers=q),
     ]
+
+
+# ---------------------------------------------------------------------------------------------
+# (c) pushes racing on one branch through the in-process transport: the loser gets an error, nothing is overwritten
+_b08c = checks
+
+
+def checks(tier):
+    from vf.props.C06 import h_local_push
+    q = ("quick", "thorough")
+    return _b08c(tier) + [
+        KCheck("C08c.push_race", h_local_push, parts=[{"atomic": a, "ncmd": 1} for a in (False, True)],
+               encoded=["dulwich.client.LocalGitClient.send_pack", "dulwich.refs.DiskRefsContainer.set_if_equals/remove_if_equals"],
+               bounds="a pusher creating, updating or deleting a branch while another actor creates, moves or deletes it between "
+                      "the pusher's snapshot of the refs and its update (the harness of C06b.local_push, one command)",
+               outside="see C06b", tiers=q),
+    ]
